@@ -13,10 +13,17 @@ Errors.  `Res.eof` is an error for which `errors.Is(err, io.EOF)` holds (the onl
 code itself makes: `CryptoAgileLog.Unmarshal` takes it as the end of the log); `Res.fail` is any other
 error.  Which one a site produces follows the `%w` / `%v` verbs of the Go sources.
 
-`Cfg.strict` (the task's `strictShortRead`) selects between the two versions of the size-prefixed
-readers: `false` = `r.Read(result)` with the byte count ignored (`readSizedArray`) or compared
-(`TCGEventData.Unmarshal`), a zero-length Read issued for size 0; `true` = the repaired readers
-(`readSized`: `io.ReadFull`, no Read at all for size 0).  Everything else is common.
+`Cfg.strict` (the task's `strictShortRead`) selects between the two versions of the readers:
+`false` = the code before the event-log repair: `r.Read(result)` with the byte count ignored
+(`readSizedArray`) or compared (`TCGEventData.Unmarshal`), a zero-length Read issued for size 0, the
+log loop ending on any error that wraps io.EOF; `true` = the repaired code (commits 0790b01, 0f6de9c,
+78982fd, bff5b71): `readExact` (`io.ReadFull` into a buffer grown in bounded steps, no Read at all for
+size 0; `io.EOF` iff not one byte of the body was there, `io.ErrUnexpectedEOF` for a partial body),
+the digest array grown by `append`, and the log ending only where no byte of a further event remains.
+Everything else is common.  The VALUES of the repaired size-prefixed readers are those of `readFull`;
+what the bounded growth changes is the allocation, which is the subject of Model/EventLogCost.lean (C07).
+With `strict = true` no zero-length Read is ever issued, so the result does not depend on `kind`
+(`EventLog.readLog_kind_irrelevant`).
 -/
 namespace GceTcb.EventLog
 open GceTcb GceTcb.Codec GceTcb.Codecs
@@ -89,7 +96,8 @@ def rawReadEof (k : RKind) (n : Nat) (b : Bytes) : Bool :=
     short read leaves the zeros of `make`), TCGEventData.Unmarshal compares it (`uint32(n) != size`). -/
 def readBody (cfg : Cfg) (zeroFill : Bool) (size : Nat) (rest : Bytes) : Res Bytes :=
   if cfg.strict then
-    -- go (repaired): readSized — size 0 succeeds without reading; else io.ReadFull semantics, `%w`
+    -- go (repaired): readExact — size 0 succeeds without reading; else io.ReadFull semantics (an io.EOF
+    -- after some bytes were read is turned into io.ErrUnexpectedEOF), `%w` / returned raw
     if size = 0 then .ok [] rest else readFull size rest
   else
     -- go (original): result := make([]byte, size); n, err := r.Read(result)
@@ -325,14 +333,18 @@ structure Log where
   events : List Event2
 deriving DecidableEq, Repr
 
-/-- The `for` loop of CryptoAgileLog.Unmarshal: an error for which `errors.Is(err, io.EOF)` holds ends
-    the log *successfully*; any other error fails. `fuel` bounds the iterations (an event consumes at
+/-- The `for` loop of CryptoAgileLog.Unmarshal. Original code (`strict = false`): an error for which
+    `errors.Is(err, io.EOF)` holds ends the log *successfully*; any other error fails. Repaired code
+    (`strict = true`): each event is read through a `countingReader`; an `io.EOF` error ends the log
+    only if the event reader consumed no byte (`cr.n == 0`, i.e. nothing remained: the first read of
+    an event takes at least one byte whenever one is there), otherwise it is the fresh error
+    "event log is truncated in event N" (`%v`). `fuel` bounds the iterations (an event consumes at
     least 16 bytes, so `length + 1` is never exhausted: `EventLog.readEvents_fuel`). -/
 def readEvents (cfg : Cfg) : Nat → Bytes → Res (List Event2)
   | 0, _ => .fail
   | fuel + 1, b =>
     match readEvent2 cfg b with
-    | .eof => .ok [] []
+    | .eof => if cfg.strict then (if b.isEmpty then .ok [] [] else .fail) else .ok [] []
     | .fail => .fail
     | .ok e rest => (readEvents cfg fuel rest).map (e :: ·)
 
